@@ -71,6 +71,8 @@ struct Gen<'a> {
     steps: Vec<Step>, // output
     idiom_rate: u32,  // per mille
     big_loops: bool,
+    mid_loops: bool,
+    force_many: bool,
     max_steps: usize,
 }
 
@@ -203,6 +205,19 @@ impl<'a> Gen<'a> {
             17..=18 => 5 + self.rng.below(2),
             _ => 7 + self.rng.below(6),
         };
+        if self.rng.chance(1, 40) {
+            // a long string: prefix . block^k . suffix
+            let block: Vec<u32> = (0..1 + self.rng.below(3)).map(|_| self.point_code()).collect();
+            let k = 5 + self.rng.below(120);
+            let mut v: Vec<u32> = (0..self.rng.below(3)).map(|_| self.point_code()).collect();
+            for _ in 0..k {
+                v.extend_from_slice(&block);
+            }
+            for _ in 0..self.rng.below(3) {
+                v.push(self.point_code());
+            }
+            return v;
+        }
         (0..len).map(|_| self.point_code()).collect()
     }
 
@@ -210,10 +225,22 @@ impl<'a> Gen<'a> {
         match self.rng.below(100) {
             0..=84 => self.rng.below(5) as u32,
             85..=96 => 5 + self.rng.below(8) as u32,
-            97..=98 => 13 + self.rng.below(52) as u32,
+            97 => 13 + self.rng.below(52) as u32,
+            98 => {
+                // middle range: too big for hand examples, small enough to be fully modelled
+                if self.mid_loops {
+                    65 + self.rng.below(300) as u32
+                } else {
+                    13 + self.rng.below(52) as u32
+                }
+            }
             _ => {
                 if self.big_loops {
-                    100 + self.rng.below(60_000) as u32
+                    match self.rng.below(3) {
+                        0 => 100 + self.rng.below(5_000) as u32,
+                        1 => 5_000 + self.rng.below(60_000) as u32,
+                        _ => 65_000 + self.rng.below(1 << 20) as u32,
+                    }
                 } else {
                     self.rng.below(5) as u32
                 }
@@ -296,7 +323,12 @@ impl<'a> Gen<'a> {
             CharDeriv | StartChar => Step::new(cl, op).a(self.h(c), self.point_code(), 0),
             StrDeriv => Step::new(cl, op).a(self.h(c), 0, 0).s(self.qstr()),
             ClassDeriv | ClassDerivUnchecked | StartClass => {
-                Step::new(cl, op).a(self.h(c), self.rng.below(12) as u32, 0)
+                let k = if self.nsingles >= 17 && self.rng.chance(1, 2) {
+                    self.rng.below(2 * self.nsingles as u64 + 4) as u32
+                } else {
+                    self.rng.below(12) as u32
+                };
+                Step::new(cl, op).a(self.h(c), k, 0)
             }
             SetDeriv | SetDerivUnchecked => {
                 let h = self.h(c);
@@ -310,11 +342,15 @@ impl<'a> Gen<'a> {
             }
             StrInRe => Step::new(cl, op).a(self.h(c), self.rng.u32(), 0).s(self.qstr()),
             TryCompile => {
-                Step::new(cl, op).a(self.h(c), self.rng.below(4) as u32, self.rng.below(12) as u32)
+                Step::new(cl, op).a(self.h(c), self.rng.below(8) as u32, self.rng.below(12) as u32)
             }
             Replace | ReplaceAll => {
                 let h = self.h(c);
-                let s = self.qstr();
+                // the library's search is quadratic in the subject: long subjects only now and then
+                let mut s = self.qstr();
+                if s.len() > 16 && !self.rng.chance(1, 6) {
+                    s.truncate(6 + self.rng.below(10) as usize);
+                }
                 let t = if self.rng.chance(1, 4) { self.qstr() } else { self.cstr() };
                 Step::new(cl, op).a(h, self.rng.u32(), 0).s(s).t(t)
             }
@@ -348,7 +384,8 @@ impl<'a> Gen<'a> {
     fn idiom(&mut self, c: usize) {
         use OpKind::*;
         let cl = c as u8;
-        match self.rng.below(14) {
+        let pick = if self.force_many { 10 } else { self.rng.below(16) };
+        match pick {
             0 => {
                 // intersection of two disjoint atoms, then a loop over the (semantically) empty body
                 let a = self.single_code();
@@ -554,6 +591,127 @@ impl<'a> Gen<'a> {
                     self.push(Step::new(cl, Concat).a(x, y, 0));
                 }
             }
+            14 => {
+                // two different constructions of the same language (hash-consing makes terms unique,
+                // not languages), then combined through complement / inclusion / union / difference
+                let w = {
+                    let mut w = self.cstr();
+                    if w.is_empty() || w.len() > 3 {
+                        w = vec![self.single_code(), self.single_code()];
+                    }
+                    w
+                };
+                let k = 2 + self.rng.below(2) as u32;
+                self.push(Step::new(cl, Str).s(w.clone()));
+                let base = self.last(c);
+                let (x, y) = match self.rng.below(5) {
+                    0 => {
+                        // str(w)^k  vs  str(w^k)
+                        self.push(Step::new(cl, Exp).a(base, k, 0));
+                        let x = self.last(c);
+                        let mut ww = Vec::new();
+                        for _ in 0..k {
+                            ww.extend_from_slice(&w);
+                        }
+                        self.push(Step::new(cl, Str).s(ww));
+                        (x, self.last(c))
+                    }
+                    1 => {
+                        // concat(x, x)  vs  str(ww)
+                        self.push(Step::new(cl, Concat).a(base, base, 0));
+                        let x = self.last(c);
+                        let mut ww = w.clone();
+                        ww.extend_from_slice(&w);
+                        self.push(Step::new(cl, Str).s(ww));
+                        (x, self.last(c))
+                    }
+                    2 => {
+                        // opt(e)  vs  union(eps, e)
+                        let e = self.h(c);
+                        self.push(Step::new(cl, Opt).a(e, 0, 0));
+                        let x = self.last(c);
+                        self.push(Step::new(cl, Union).a(1, e, 0));
+                        (x, self.last(c))
+                    }
+                    3 => {
+                        // loop(e,1,2)  vs  union(e, e.e)
+                        let e = self.h(c);
+                        self.push(Step::new(cl, Loop).a(e, 1, 2));
+                        let x = self.last(c);
+                        self.push(Step::new(cl, Concat).a(e, e, 0));
+                        let ee = self.last(c);
+                        self.push(Step::new(cl, Union).a(e, ee, 0));
+                        (x, self.last(c))
+                    }
+                    _ => {
+                        // plus(e)  vs  concat(e, star(e))
+                        let e = self.h(c);
+                        self.push(Step::new(cl, Plus).a(e, 0, 0));
+                        let x = self.last(c);
+                        self.push(Step::new(cl, Star).a(e, 0, 0));
+                        let se = self.last(c);
+                        self.push(Step::new(cl, Concat).a(e, se, 0));
+                        (x, self.last(c))
+                    }
+                };
+                self.push(Step::new(cl, EqCheck).a(x, y, 0));
+                self.push(Step::new(cl, IncludedIn).a(x, y, 0));
+                self.push(Step::new(cl, Compl).a(y, 0, 0));
+                let ny = self.last(c);
+                self.push(Step::new(cl, IncludedIn).a(x, ny, 0));
+                self.push(Step::new(cl, Union).a(x, ny, 0));
+                self.push(Step::new(cl, Inter).a(x, ny, 0));
+                let e = self.last(c);
+                self.push(Step::new(cl, IsEmpty).a(e, 0, 0));
+                self.push(Step::new(cl, Compl).a(x, 0, 0));
+                let nx = self.last(c);
+                self.push(Step::new(cl, IncludedIn).a(y, nx, 0));
+                self.push(Step::new(cl, Union).a(y, nx, 0));
+            }
+            15 => {
+                // a long subject on which every attempt fails late: x^n z y w  against  x* y
+                let x = self.single_code();
+                let y = x + 1;
+                let z = x + 2;
+                self.push(Step::new(cl, Char).a(x, 0, 0));
+                let hx = self.last(c);
+                self.push(Step::new(cl, Char).a(y, 0, 0));
+                let hy = self.last(c);
+                let op = if self.rng.chance(1, 2) { Star } else { Plus };
+                self.push(Step::new(cl, op).a(hx, 0, 0));
+                let hs = self.last(c);
+                self.push(Step::new(cl, Concat).a(hs, hy, 0));
+                let pat = self.last(c);
+                let n = 60 + self.rng.below(200) as usize;
+                // query codes: low point of the cell of a singleton = the character itself; the
+                // interpreter maps constructor codes and query codes differently, so spell the
+                // subject with the constructor characters through `t` (replacement) is not possible:
+                // subjects are query strings, so use query codes of random cells for the filler and
+                // rely on x,y,z being cells too (any cell works for the shape "long run, then miss")
+                let run = self.point_code();
+                let miss = self.point_code();
+                let hit = self.point_code();
+                let mut s: Vec<u32> = vec![run; n];
+                s.push(miss);
+                s.push(hit);
+                s.push(miss);
+                let _ = z;
+                // pattern over the same cells as the subject: range(cell(run))* . range(cell(hit))
+                self.push(Step::new(cl, Range).a(run / 3, run / 3, 0));
+                let rr = self.last(c);
+                self.push(Step::new(cl, Star).a(rr, 0, 0));
+                let rs = self.last(c);
+                self.push(Step::new(cl, Range).a(hit / 3, hit / 3, 0));
+                let rh = self.last(c);
+                self.push(Step::new(cl, Concat).a(rs, rh, 0));
+                let pat2 = self.last(c);
+                let t = self.cstr();
+                let op = if self.rng.chance(1, 2) { Replace } else { ReplaceAll };
+                let which = if self.rng.chance(3, 4) { pat2 } else { pat };
+                let salt = self.rng.u32();
+                self.push(Step::new(cl, op).a(which, salt, 0).s(s.clone()).t(t));
+                self.push(Step::new(cl, StrInRe).a(which, salt, 0).s(s));
+            }
             12 | 13 => {
                 // the same membership question before and after another kind of call on the same term
                 let h = self.h(c);
@@ -574,11 +732,27 @@ impl<'a> Gen<'a> {
             10 | 11 => {
                 // a character class with many pieces: union of 3-6 chars / ranges (many derivative
                 // classes, holes of width one between them), then used under a loop / concatenation
-                let n = 3 + self.rng.below(4);
+                let many = self.nsingles >= 17 && (self.force_many || self.rng.chance(2, 3));
+                let n = if many {
+                    // at least 17 pieces, up to (almost) all singleton characters
+                    let top = (self.nsingles as u64).min(330);
+                    if top > 200 {
+                        // very wide alphabet: (almost) all of it, so that class indices pass 255
+                        top - self.rng.below(8)
+                    } else {
+                        17 + self.rng.below(top - 16)
+                    }
+                } else {
+                    3 + self.rng.below(4)
+                };
+                let first = self.single_code();
                 let mut parts: Vec<u32> = Vec::new();
-                for _ in 0..n {
-                    if self.rng.chance(1, 2) {
-                        let a = self.single_code();
+                // two or three shared continuations keep the reference automaton small however many
+                // alternatives there are
+                let conts = [self.h(c), self.h(c), self.h(c)];
+                for i in 0..n {
+                    if many || self.rng.chance(1, 2) {
+                        let a = if many { first + i as u32 } else { self.single_code() };
                         self.push(Step::new(cl, Char).a(a, 0, 0));
                     } else {
                         let a = self.rng.below(self.ncells as u64) as u32;
@@ -587,15 +761,61 @@ impl<'a> Gen<'a> {
                     }
                     parts.push(self.last(c));
                 }
-                if self.rng.chance(1, 3) {
+                if self.rng.chance(1, 3) || (many && (self.force_many || self.rng.chance(1, 2))) {
                     // alternatives with different continuations
                     let mut alts: Vec<u32> = Vec::new();
-                    for &p in &parts {
-                        let t = self.h(c);
+                    for (i, &p) in parts.iter().enumerate() {
+                        let t = if many { conts[i % 3] } else { self.h(c) };
                         self.push(Step::new(cl, Concat).a(p, t, 0));
                         alts.push(self.last(c));
                     }
-                    self.push(Step::new(cl, UnionList).l(alts));
+                    self.push(Step::new(cl, UnionList).l(alts.clone()));
+                    if many {
+                        // ask about it right away: membership, derivatives by late classes, compile
+                        let u = self.last(c);
+                        let q = self.qstr();
+                        let r1 = self.rng.u32();
+                        self.push(Step::new(cl, StrInRe).a(u, r1, 0).s(q));
+                        let k = self.rng.below(n) as u32;
+                        self.push(Step::new(cl, ClassDeriv).a(u, k, 0));
+                        let pc = self.point_code();
+                        self.push(Step::new(cl, CharDeriv).a(u, pc, 0));
+                        let op = [Compile, ClassInfo, IsEmpty, GetString, Closure][self.rng.below(5) as usize];
+                        let r2 = self.rng.u32();
+                        self.push(Step::new(cl, op).a(u, r2, 0));
+                        self.push(Step::new(cl, Compl).a(u, 0, 0));
+                        let nu = self.last(c);
+                        let (k1, k2, k3) = (
+                            self.rng.below(n) as u32,
+                            self.rng.below(n) as u32,
+                            self.rng.below(n) as u32,
+                        );
+                        self.push(Step::new(cl, ClassDeriv).a(nu, k1, 0));
+                        self.push(Step::new(cl, ClassDeriv).a(u, k2, 0));
+                        self.push(Step::new(cl, StartClass).a(u, k3, 0));
+                        self.push(Step::new(cl, ClassInfo).a(u, 0, 0));
+                        // alternatives intersected with the complement of the whole union: empty only
+                        // semantically, and the emptiness search has to walk through late classes
+                        for _ in 0..3 {
+                            let i = if alts.len() > 256 && self.rng.chance(1, 2) {
+                                250 + self.rng.below(alts.len() as u64 - 250) as usize
+                            } else {
+                                self.rng.below(alts.len() as u64) as usize
+                            };
+                            let x = alts[i];
+                            if self.rng.chance(1, 2) {
+                                self.push(Step::new(cl, Inter).a(nu, x, 0));
+                            } else {
+                                self.push(Step::new(cl, Diff).a(x, u, 0));
+                            }
+                            let e = self.last(c);
+                            let r3 = self.rng.u32();
+                            self.push(Step::new(cl, IsEmpty).a(e, r3, 0));
+                            self.push(Step::new(cl, GetString).a(e, r3, 0));
+                            let pc2 = self.point_code();
+                            self.push(Step::new(cl, StartChar).a(e, pc2, 0));
+                        }
+                    }
                 } else {
                     self.push(Step::new(cl, UnionList).l(parts));
                     let u = self.last(c);
@@ -626,6 +846,31 @@ impl<'a> Gen<'a> {
 
 pub fn gen_alphabet(rng: &mut Rng) -> Vec<u32> {
     let mut bounds: Vec<u32> = Vec::new();
+    // wide alphabets: many singleton characters (17-45, rarely 260-330), so that terms with tens or
+    // hundreds of derivative classes occur
+    let wide = match rng.below(200) {
+        0 | 1 => 260 + rng.below(71),
+        2..=13 => 17 + rng.below(29),
+        _ => 0,
+    };
+    if wide > 0 {
+        let base = [0u32, 0x41, 0x3E8, 0x2FA00, 0x10000 - 40][rng.below(5) as usize];
+        let stride = [1u32, 2, 2, 3, 5][rng.below(5) as usize];
+        for i in 0..wide as u32 {
+            let p = base + i * stride;
+            if p < MAX_CHAR {
+                bounds.push(p);
+                bounds.push(p + 1);
+            }
+        }
+        if rng.chance(1, 2) {
+            bounds.push(MAX_CHAR);
+        }
+        bounds.retain(|&b| b > 0 && b <= MAX_CHAR);
+        bounds.sort_unstable();
+        bounds.dedup();
+        return bounds;
+    }
     let ns = 2 + rng.below(3) + if rng.chance(1, 3) { rng.below(3) } else { 0 };
     let adjacent = rng.chance(1, 2);
     let mut chosen = 0;
@@ -722,12 +967,17 @@ pub fn generate(seed: u64, prop: Prop) -> Trace {
         _ => rng.below(160) as u32,
     };
     // most runs are short; one in sixteen is long (ids in the hundreds, deep histories)
-    let max_steps = if rng.chance(1, 16) {
+    let idiom_rate = if alpha.singles.len() > 200 { idiom_rate.max(60) } else { idiom_rate };
+    let max_steps = if rng.chance(1, 160) {
+        // a very long session: ids in the thousands
+        600 + rng.below(900) as usize
+    } else if rng.chance(1, 16) {
         100 + rng.below(151) as usize
     } else {
         20 + rng.below(61) as usize
     };
     let big_loops = rng.chance(1, 4);
+    let mid_loops = rng.chance(1, 3);
 
     let mut g = Gen {
         rng: &mut rng,
@@ -740,13 +990,24 @@ pub fn generate(seed: u64, prop: Prop) -> Trace {
         steps: Vec::new(),
         idiom_rate,
         big_loops,
+        mid_loops,
+        force_many: false,
         max_steps,
     };
 
     // scheduler: per-client activity weights, occasional bursts
     let act: Vec<u32> = (0..nclients).map(|_| 1 + g.rng.below(4) as u32).collect();
     let mut current = g.rng.weighted(&act);
+    let mut forced = g.nsingles >= 17;
     while g.steps.len() < g.max_steps {
+        if forced {
+            // a wide alphabet is there to be used: start with a many-piece character class
+            forced = false;
+            g.force_many = true;
+            g.idiom(current);
+            g.force_many = false;
+            continue;
+        }
         if !g.rng.chance(1, 3) {
             current = g.rng.weighted(&act);
         }
